@@ -11,7 +11,7 @@ namespace IpcHub.MuxSpec
 
 local notation "Bytes" => List UInt8
 
-def ascii (s : String) : Bytes := s.toList.map (fun c => UInt8.ofNat c.toNat)
+def ascii (s : String) : Bytes := s.toUTF8.data.toList
 
 inductive Proto where
   | rtsp | http | none
